@@ -2,7 +2,7 @@
 From Coq Require Import NArith List Bool.
 Import ListNotations.
 From DV Require Import Base.Outcome Base.Bytes Base.Lex Base.Names.
-From DV Require Import C17.Model C17.Proofs C18.Model C14.Gen C14.Model C14.Proofs C14.ProofsDenial C14.ProofsSig C14.ProofsL2H C14.ModelN3 C14.ProofsN3 C14.ModelChain C14.ProofsChain C14.ModelDs C14.ProofsDs C14.ModelTa C14.ProofsTa C14.ModelWild C14.ProofsWild C14.ProofsDname C14.ModelNode C14.ProofsNode C14.ModelCache C14.ProofsCache C14.ModelGroups C14.ProofsGroups C14.ModelConn C14.ProofsConn C14.ProofsDnameMulti C14.ModelWildCname C14.ProofsWildCname.
+From DV Require Import C17.Model C17.Proofs C18.Model C14.Gen C14.Model C14.Proofs C14.ProofsDenial C14.ProofsSig C14.ProofsL2H C14.ModelN3 C14.ProofsN3 C14.ModelChain C14.ProofsChain C14.ModelDs C14.ProofsDs C14.ModelTa C14.ProofsTa C14.ModelWild C14.ProofsWild C14.ProofsDname C14.ModelNode C14.ProofsNode C14.ModelCache C14.ProofsCache C14.ModelGroups C14.ProofsGroups C14.ModelConn C14.ProofsConn C14.ProofsDnameMulti C14.ModelWildCname C14.ProofsWildCname C14.ProofsComplete.
 Local Open Scope N_scope.
 
 Theorem C14_nsec_in_range_spec : forall t o n,
@@ -470,3 +470,76 @@ Theorem C14_moved_to_dname_all_agrees : forall cowner ctarget gs,
   moved_to_dname_all cowner ctarget (map dn_of gs) = moved_to_dname cowner ctarget gs.
 Proof. exact moved_to_dname_all_agrees. Qed.
 Print Assumptions C14_moved_to_dname_all_agrees.
+
+(* ---- completeness: correctly signed data is reported secure, insecure data insecure (not bogus) *)
+Theorem C14_check_sig_iff : forall s, check_sig s = true <->
+  name_eqb (s_sig_owner s) (s_owner s) = true /\ s_same_class s = true /\
+  ends_with (s_owner s) (s_signer s) = true /\
+  s_type_covered s = s_rtype s /\
+  s_sig_labels s <= N.of_nat (length (s_owner s)) /\
+  sig_time_ok (s_now s) (s_inception s) (s_expiration s) = true /\
+  name_eqb (s_signer s) (s_key_name s) = true /\ s_sig_alg s = s_key_alg s /\ s_sig_tag s = s_key_tag s /\
+  s_zone_key s = true /\ s_crypto_ok s = true.
+Proof. exact check_sig_iff. Qed.
+Print Assumptions C14_check_sig_iff.
+
+Theorem C14_validate_groups_complete : forall l, ~ In Bogus l -> validate_groups l = Some l.
+Proof. exact validate_groups_complete. Qed.
+Print Assumptions C14_validate_groups_complete.
+
+Theorem C14_positive_direct_verdict : forall q qt maxc gs g,
+  Forall (fun g => a_state g = Secure \/ a_state g = Insecure) gs ->
+  cname_find q qt gs = Some None ->
+  get_answer_state q qt gs = Some g ->
+  a_wild g = false ->
+  exists s, positive_answer_state q qt maxc gs = Ok (Some s) /\ (s = Secure \/ s = Insecure) /\
+    (a_state g = Insecure -> s = Insecure) /\
+    ((forall g', In g' gs -> a_state g' = Secure) -> s = Secure).
+Proof. exact positive_direct_verdict. Qed.
+Print Assumptions C14_positive_direct_verdict.
+
+Theorem C14_positive_secure_complete : forall q qt maxc gs k sname g,
+  (forall g, In g gs -> a_state g <> Bogus) ->
+  chain_n qt gs k q sname -> N.of_nat k <= maxc ->
+  cname_find sname qt gs = Some None ->
+  get_answer_state sname qt gs = Some g -> a_state g = Secure -> a_wild g = false ->
+  (answer_init_is_const = false -> forall g, In g gs -> a_state g = Secure) ->
+  positive_answer_state q qt maxc gs = Ok (Some Secure).
+Proof. exact positive_secure_complete. Qed.
+Print Assumptions C14_positive_secure_complete.
+
+Theorem C14_chain_n_is_chain_secure : forall qt gs k n m, chain_n qt gs k n m -> chain_secure qt gs n m.
+Proof. exact chain_n_chain_secure. Qed.
+Print Assumptions C14_chain_n_is_chain_secure.
+
+Theorem C14_positive_bogus_group : forall q qt maxc gs g,
+  In g gs -> a_state g = Bogus -> positive_answer_state q qt maxc gs = Ok (Some Bogus).
+Proof. exact positive_bogus_group. Qed.
+Print Assumptions C14_positive_bogus_group.
+
+Theorem C14_negative_nxdomain_complete : forall t qt s gs ce e,
+  ~ In Bogus (map snd gs) ->
+  nsec_for_nxdomain t (map fst gs) s = Ok (NxDoesNotExist ce, e) ->
+  negative_msg_state true t qt s gs = Ok (Secure, e).
+Proof. exact negative_nxdomain_complete. Qed.
+Print Assumptions C14_negative_nxdomain_complete.
+
+Theorem C14_negative_nodata_complete : forall t qt s gs e,
+  ~ In Bogus (map snd gs) ->
+  nsec_for_nodata t (map fst gs) qt s = Ok (NoData, e) ->
+  negative_msg_state false t qt s gs = Ok (Secure, e).
+Proof. exact negative_nodata_complete. Qed.
+Print Assumptions C14_negative_nodata_complete.
+
+Theorem C14_negative_nodata_wildcard_complete : forall t qt s gs e0 e,
+  ~ In Bogus (map snd gs) ->
+  nsec_for_nodata t (map fst gs) qt s = Ok (NNothing, e0) ->
+  nsec_for_nodata_wildcard t (map fst gs) qt s = Ok (NoData, e) ->
+  negative_msg_state false t qt s gs = Ok (Secure, e).
+Proof. exact negative_nodata_wildcard_complete. Qed.
+Print Assumptions C14_negative_nodata_wildcard_complete.
+
+Theorem C14_negative_bogus_group : forall nx t qt s gs,
+  In Bogus (map snd gs) -> negative_msg_state nx t qt s gs = Ok (Bogus, 99).
+Proof. exact negative_bogus_group. Qed.
+Print Assumptions C14_negative_bogus_group.
